@@ -183,7 +183,7 @@ func lwCase(stream string, ops []lwOp) {
 func lwStreams(r *rng, tier string) {
 	maxLen, nRandom, opLen := 6, 2000, 4
 	if tier == "thorough" {
-		maxLen, nRandom, opLen = 9, 30000, 5
+		maxLen, nRandom, opLen = 10, 60000, 5
 	}
 	// 1. every string over {a, \n} up to maxLen, every way of cutting it into non-empty chunks, then Flush;
 	//    for every 7th case an empty chunk is inserted too
